@@ -56,17 +56,19 @@ Section W.
 End W.
 
 (* ---------------------------------------------------------------- ristretto255 / X25519 *)
-Lemma r_ser_length P : length (r_ser P) = 32.
-Proof. unfold r_ser. destruct P as [[[X Y] Zc] T]. apply Z_to_bytes_le_length. Qed.
+(* ristretto255 elements are represented by their encodings: the decoder returns its input *)
+Lemma rb_deser_canon b e : rb_deser b = Some e -> e = b /\ length b = 32.
+Proof.
+  unfold rb_deser, rb_valid. destruct (r_deser_gen false b) as [P|] eqn:E; [|discriminate].
+  intros [= <-]. split; [reflexivity|].
+  unfold r_deser_gen in E. destruct (Nat.eqb_spec (length b) 32); [assumption|discriminate].
+Qed.
 
 Lemma r_scalar_canon b k : length b = 32 -> r_deser_scalar b = Some k -> r_ser_scalar k = b.
 Proof.
   unfold r_deser_scalar, r_ser_scalar. intros Hl H.
   destruct (negb _); [discriminate|]. destruct (_ && _); [|discriminate]. injection H as <-. now apply le_roundtrip.
 Qed.
-
-Lemma r_deser_gen_length a b P : r_deser_gen a b = Some P -> length b = 32.
-Proof. unfold r_deser_gen. destruct (Nat.eqb_spec (length b) 32); cbn [negb]; [auto|discriminate]. Qed.
 
 Lemma x_pk_canon b pk : x_deser_pk b = Some pk -> pk = b /\ length b = 32.
 Proof.
@@ -81,19 +83,18 @@ Proof.
   destruct (bytes_eqb b (zeros 32)); [discriminate|]. now intros [= <-].
 Qed.
 
-(* RFC 9496: the ristretto255 decoder accepts only the canonical encoding.  Not proved
-   here (field arithmetic over 2^255-19); exercised by the C10 battery. *)
-Definition ristretto_canonical : Prop := forall b P, r_deser_gen false b = Some P -> r_ser P = b.
-
 (* ---------------------------------------------------------------- the 20 suites *)
 Definition oprf_suite_laws {E Sc} (O : OprfOps E Sc) : Prop :=
   (forall b s, length b = o_Nok O -> o_deser_s O b = Some s -> o_ser_s O s = b) /\
-  (forall e, length (o_ser_e O e) = o_Noe O).
+  (forall b e, o_deser_e O b = Some e -> length (o_ser_e O e) = o_Noe O).
 
 Lemma O_R255_laws : oprf_suite_laws O_R255.
-Proof. split; [exact r_scalar_canon | exact r_ser_length]. Qed.
+Proof.
+  split; [exact r_scalar_canon|]. intros b e H. cbn in H |- *.
+  now apply rb_deser_canon in H as [-> ->].
+Qed.
 Lemma O_W_laws C h id : oprf_suite_laws (oprf_weierstrass C h id).
-Proof. split; [exact (w_scalar_canon C) | exact (w_ser_length C)]. Qed.
+Proof. split; [exact (w_scalar_canon C) | intros b e _; exact (w_ser_length C e)]. Qed.
 
 Definition ke_suite_laws {Pk Sk} (K : KeOps Pk Sk) : Prop :=
   (forall b pk, k_deser_pk K b = Some pk -> k_ser_pk K pk = b) /\
@@ -111,10 +112,11 @@ Proof.
   - intros b s _ H. now apply x_sk_canon in H.
 Qed.
 
-Lemma K_R255_laws : ristretto_canonical -> ke_suite_laws K_R255.
+Lemma K_R255_laws : ke_suite_laws K_R255.
 Proof.
-  intros R. split; [exact R|]. split.
-  - intros b pk H. exact (r_deser_gen_length false b pk H).
+  split; [|split].
+  - intros b pk H. now apply rb_deser_canon in H as [-> _].
+  - intros b pk H. now apply rb_deser_canon in H as [_ ->].
   - exact r_scalar_canon.
 Qed.
 
@@ -137,33 +139,11 @@ Definition all_suites (P : forall E Sc Pk Sk, Suite E Sc Pk Sk -> Prop) : Prop :
    P _ _ _ _ (mk_suite SHA512 O_P521 K_P384) /\ P _ _ _ _ (mk_suite SHA512 O_P521 K_P521) /\
    P _ _ _ _ (mk_suite SHA512 O_P521 K_X25519)).
 
-(* the 16 suites whose key-exchange group is not ristretto255 *)
-Definition all_suites_ke_not_ristretto (P : forall E Sc Pk Sk, Suite E Sc Pk Sk -> Prop) : Prop :=
-  (P _ _ _ _ (mk_suite SHA512 O_R255 K_P256) /\
-   P _ _ _ _ (mk_suite SHA512 O_R255 K_P384) /\ P _ _ _ _ (mk_suite SHA512 O_R255 K_P521) /\
-   P _ _ _ _ (mk_suite SHA512 O_R255 K_X25519)) /\
-  (P _ _ _ _ (mk_suite SHA256 O_P256 K_P256) /\
-   P _ _ _ _ (mk_suite SHA256 O_P256 K_P384) /\ P _ _ _ _ (mk_suite SHA256 O_P256 K_P521) /\
-   P _ _ _ _ (mk_suite SHA256 O_P256 K_X25519)) /\
-  (P _ _ _ _ (mk_suite SHA384 O_P384 K_P256) /\
-   P _ _ _ _ (mk_suite SHA384 O_P384 K_P384) /\ P _ _ _ _ (mk_suite SHA384 O_P384 K_P521) /\
-   P _ _ _ _ (mk_suite SHA384 O_P384 K_X25519)) /\
-  (P _ _ _ _ (mk_suite SHA512 O_P521 K_P256) /\
-   P _ _ _ _ (mk_suite SHA512 O_P521 K_P384) /\ P _ _ _ _ (mk_suite SHA512 O_P521 K_P521) /\
-   P _ _ _ _ (mk_suite SHA512 O_P521 K_X25519)).
-
-Theorem codec_laws_16 : all_suites_ke_not_ristretto (fun _ _ _ _ CS => CodecLaws CS).
+Theorem codec_laws_20 : all_suites (fun _ _ _ _ CS => CodecLaws CS).
 Proof.
-  unfold all_suites_ke_not_ristretto.
+  unfold all_suites.
   repeat split; apply mk_suite_laws;
-    first [ exact O_R255_laws | apply O_W_laws | apply K_W_laws | exact K_X25519_laws ].
-Qed.
-
-Theorem codec_laws_20 : ristretto_canonical -> all_suites (fun _ _ _ _ CS => CodecLaws CS).
-Proof.
-  intros R. unfold all_suites.
-  repeat split; apply mk_suite_laws;
-    first [ exact O_R255_laws | apply O_W_laws | apply K_W_laws | exact K_X25519_laws | exact (K_R255_laws R) ].
+    first [ exact O_R255_laws | apply O_W_laws | apply K_W_laws | exact K_X25519_laws | exact K_R255_laws ].
 Qed.
 
 (* the run-time dispatcher of the correspondence check reaches exactly these suites *)
